@@ -27,6 +27,7 @@ import (
 	"fmt"
 	"io"
 	"math/rand"
+	"net"
 	"net/http"
 	"net/url"
 	"os"
@@ -86,7 +87,7 @@ func main() {
 			for _, k := range []string{"srv.new_added", "srv.dup_ignored", "srv.ban_effective", "srv.on_banned_ignored", "srv.badsig_ignored", "srv.prereg_ignored",
 				"cli.contacted", "cli.entry_added", "cli.ban_applied", "cli.unban_ignored", "cli.dup_ignored", "cli.rejected_unchanged", "cli.migration_adopted", "cli.restart_ok",
 				"cli.class.mig_inner_wrong", "cli.class.mig_outer_invalid", "cli.class.mig_other_device", "cli.class.list_badsig",
-				"cli.class.list_dup_unsigned", "cli.class.mig_dup_unsigned", "cli.zero_order_delivered", "cli.overlap", "cli.overlap_migrated_meanwhile", "cli.resend_overlap", "cli.resend_overlap_b_changed_state_while_a_resent", "srv.burst", "srv.burst_aligned", "fault.rounds", "large.genuine_rounds", "large.adopted_exactly", "large.forged.pos_from_end_0", "large.forged.pos_from_end_1", "large.forged.pos_from_end_2", "cli.class.large_list_forged", "cli.class.large_order_forged"} {
+				"cli.class.list_dup_unsigned", "cli.class.mig_dup_unsigned", "cli.zero_order_delivered", "cli.overlap", "cli.overlap_migrated_meanwhile", "cli.resend_overlap", "cli.resend_overlap_b_changed_state_while_a_resent", "srv.burst", "srv.burst_aligned", "srv.slow_peer", "srv.slow_peer_held", "fault.rounds", "large.genuine_rounds", "large.adopted_exactly", "large.forged.pos_from_end_0", "large.forged.pos_from_end_1", "large.forged.pos_from_end_2", "cli.class.large_list_forged", "cli.class.large_order_forged"} {
 				c.Require(k, 1)
 			}
 		},
@@ -266,6 +267,7 @@ func postJSON(port uint16, path string, body []byte) (code int, out []byte, err 
 type srvOp struct {
 	Kind string
 	Rec  refenc.AuthServer
+	Also []refenc.AuthServer // further records posted in the same (overlapping) step
 }
 
 func describe(ops []srvOp) []string {
@@ -436,7 +438,13 @@ func serverSequence(r *ev.Result, rng *rand.Rand, dir, label string) {
 				if _, old := prev[k]; old {
 					continue
 				}
-				if !(valid && op.Rec == c) {
+				posted := valid && op.Rec == c
+				for _, x := range op.Also {
+					if registered && x == c && refenc.Verify(gca.Pub, x.SigningBytes(), x.Sig) {
+						posted = true
+					}
+				}
+				if !posted {
 					bad("server-entered-without-valid-gca-signature", "%s lists new key %x (%s) that was not just posted with a valid GCA signature", src, k[:4], short(content(c)))
 				} else if si == 0 {
 					r.Count("srv.new_added", 1)
@@ -493,7 +501,7 @@ func serverSequence(r *ev.Result, rng *rand.Rand, dir, label string) {
 			return false
 		}
 		r.Count("srv.op."+strings.SplitN(kind, ":", 2)[0], 1)
-		return observe(srvOp{kind, a})
+		return observe(srvOp{Kind: kind, Rec: a})
 	}
 
 	// burst: the same new, validly signed record arrives K times at once (the
@@ -526,7 +534,7 @@ func serverSequence(r *ev.Result, rng *rand.Rand, dir, label string) {
 			r.Count("srv.burst_not_aligned", 1)
 		}
 		r.Count("srv.burst", 1)
-		if !observe(srvOp{fmt.Sprintf("burst_new(x%d)", K), a}) {
+		if !observe(srvOp{Kind: fmt.Sprintf("burst_new(x%d)", K), Rec: a}) {
 			return false
 		}
 		x := a
@@ -560,11 +568,105 @@ func serverSequence(r *ev.Result, rng *rand.Rand, dir, label string) {
 		return
 	}
 	registered = true
+
+	// slow peer: the new server K answers the GCA server's first push slowly
+	// (the harness plays K's HTTP endpoint); while that push is pending a
+	// second post for K arrives (its ban, or K with other ports). One record
+	// per key and monotone bans must hold afterwards as after any other post.
+	slowPeer := func() bool {
+		dev := refenc.GenKey(rng)
+		au := refenc.Auth{ID: uint32(1 + rng.Intn(1000)), Pub: dev.Pub, Capacity: 1000, Expiration: 100000}.Signed(gca.Priv)
+		if code, body, err := postJSON(e.HTTP, "/api/v1/authorize-equipment", au.JSON()); err != nil || code != 200 {
+			r.Inconc(fmt.Sprintf("cannot authorize a device: status %d err %v body %.80s", code, err, body))
+			return false
+		}
+		held := make(chan struct{}, 1)
+		release := make(chan struct{})
+		var firstReq atomic.Bool
+		ln, err := net.Listen("tcp", "127.0.0.1:0")
+		if err != nil {
+			r.Inconc(err.Error())
+			return false
+		}
+		peer := &http.Server{Handler: http.HandlerFunc(func(w http.ResponseWriter, req *http.Request) {
+			io.Copy(io.Discard, req.Body)
+			if firstReq.CompareAndSwap(false, true) {
+				held <- struct{}{}
+				<-release
+			}
+			w.Write([]byte(`{"status":"success"}`))
+		})}
+		go peer.Serve(ln)
+		defer peer.Close()
+		k := refenc.AuthServer{Pub: refenc.GenKey(rng).Pub, Location: "127.0.0.1", HTTP: uint16(ln.Addr().(*net.TCPAddr).Port), TCP: uint16(rng.Intn(65536)), UDP: uint16(rng.Intn(65536))}.Signed(gca.Priv)
+		second := k
+		kind := "slow_peer+ban"
+		if rng.Intn(3) == 0 {
+			second.TCP++
+			kind = "slow_peer+other_ports"
+		} else {
+			second.Banned = true
+			if rng.Intn(2) == 0 {
+				second.UDP++
+			}
+		}
+		second = second.Signed(gca.Priv)
+		run.Op("%s %s: first post of %s", label, kind, short(content(k)))
+		done1 := make(chan error, 1)
+		go func() {
+			_, _, err := postJSON(e.HTTP, "/api/v1/authorized-servers", k.JSON())
+			done1 <- err
+		}()
+		isHeld := false
+		select {
+		case <-held:
+			isHeld = true
+		case err := <-done1:
+			done1 <- err
+		case <-time.After(10 * time.Second):
+		}
+		if isHeld {
+			r.Count("srv.slow_peer_held", 1)
+		} else {
+			r.Count("srv.slow_peer_not_held", 1)
+		}
+		run.Op("%s %s: second post %s", label, kind, short(content(second)))
+		_, _, err2 := postJSON(e.HTTP, "/api/v1/authorized-servers", second.JSON())
+		close(release)
+		var err1 error
+		select {
+		case err1 = <-done1:
+		case <-time.After(30 * time.Second):
+			r.Inconc("slow peer: the first post did not return within 30 s after the peer answered")
+			return false
+		}
+		if err1 != nil || err2 != nil {
+			r.Inconc(fmt.Sprintf("slow peer: transport errors %v / %v", err1, err2))
+			return false
+		}
+		r.Count("srv.slow_peer", 1)
+		if !observe(srvOp{Kind: kind, Rec: second, Also: []refenc.AuthServer{k}}) {
+			return false
+		}
+		if !second.Banned { // and now its ban
+			x := k
+			x.Banned = true
+			return post("ban", x.Signed(gca.Priv))
+		}
+		return true
+	}
+
 	nops := 14 + rng.Intn(14)
 	burstAt := rng.Intn(nops)
+	slowAt := rng.Intn(nops)
 	for i := 0; i < nops; i++ {
 		if i == burstAt && len(keys) < 7 {
 			if !burst() {
+				return
+			}
+		}
+		if i == slowAt && len(keys) < 7 {
+			if !slowPeer() {
 				return
 			}
 		}
